@@ -84,7 +84,7 @@ def tree_hash(crate_dir, config):
     return h.hexdigest()[:32]
 
 
-KEEP_FACTS = 60           # most recently used fact files kept
+KEEP_FACTS = 150          # most recently used fact files kept
 SCRATCH_TTL_S = 3 * 3600  # target dirs of scratch trees (seeds, corpus variants) unused for this long are dropped
 PERMANENT_TAGS = ("repo", "bad")
 
